@@ -25,6 +25,7 @@ CONSTANTS K,           \* number of robust constraints of model 1 that can be ma
           ResetLists,  \* the lists sup_model.reset() clears (repaired code: all of them)
           MaxSteps,
           WithModel2,  \* include a second model and the cross-model misuse actions
+          WithLate,    \* include the late random variable actions
           Closing      \* TRUE: the last steps of a history are forced to be objective (if missing) and solve
 
 Lists == {"lin", "pws", "cvx", "ip", "other", "bounds"}
@@ -44,9 +45,12 @@ VARIABLES sup,      \* sup[l]: items currently in list l of model 1's support mo
           sol,      \* [kind: "none"|"ok"|"fail", gen, via]
           m2,       \* second model: [st: number of constraints added, solved: BOOLEAN]
           poisoned, \* a misuse happened on model 1 that must prevent any later solution
+          wrow,     \* late random variable w and the row s*w <= 1 on it: "none" | "declared" (w exists) | "st" (row added);
+                    \* wcover: the set that protects the row was captured when w already existed
+          wcover,
           hist, out
 
-vars == <<sup, cons, obj, gen, pupd, primalGen, sol, m2, poisoned, hist, out>>
+vars == <<sup, cons, obj, gen, pupd, primalGen, sol, m2, poisoned, wrow, wcover, hist, out>>
 
 -----------------------------------------------------------------------------
 Snapshot(s) == UNION {s[l] : l \in Lists}
@@ -63,7 +67,7 @@ Init ==
     /\ gen = 0 /\ pupd = TRUE /\ primalGen = -1
     /\ sol = [kind |-> "none", gen |-> -1]
     /\ m2 = [st |-> 0, solved |-> FALSE]
-    /\ poisoned = FALSE
+    /\ poisoned = FALSE /\ wrow = "none" /\ wcover = FALSE
     /\ hist = <<>> /\ out = "ok"
 
 InClosing == Closing /\ (Len(hist) = MaxSteps - 1 \/ (Len(hist) = MaxSteps - 2 /\ obj.kind = "none"))
@@ -76,28 +80,29 @@ ForAll(k, S) ==
     /\ sup' = Define(sup, S)
     /\ cons' = [cons EXCEPT ![k].decl = S, ![k].eff = Snapshot(Define(sup, S))]
     /\ out' = "ok" /\ Log("forall", <<k, SetSeq(S)>>, "ok")
-    /\ UNCHANGED <<obj, gen, pupd, primalGen, sol, m2, poisoned>>
+    /\ UNCHANGED <<obj, gen, pupd, primalGen, sol, m2, poisoned, wrow, wcover>>
 
 St(k) ==
     /\ More /\ cons[k].made /\ ~cons[k].st
     /\ cons' = [cons EXCEPT ![k].st = TRUE]
     /\ gen' = gen + 1 /\ pupd' = TRUE
     /\ out' = "ok" /\ Log("st", <<k>>, "ok")
-    /\ UNCHANGED <<sup, obj, primalGen, sol, m2, poisoned>>
+    /\ UNCHANGED <<sup, obj, primalGen, sol, m2, poisoned, wrow, wcover>>
 
 \* objective: min(sum t) or minmax(sum t, S); a second objective raises and changes nothing
 SetObjCore(kind, S) ==
     /\ IF obj.kind # "none"
        THEN /\ out' = "err" /\ Log("obj", <<kind, SetSeq(S)>>, "err")
-            /\ UNCHANGED <<sup, obj, gen, pupd>>
+            /\ UNCHANGED <<sup, obj, gen, pupd, wcover>>
        ELSE /\ out' = "ok" /\ Log("obj", <<kind, SetSeq(S)>>, "ok")
             /\ IF kind = "minmax"
                THEN /\ sup' = Define(sup, S)
                     /\ obj' = [kind |-> kind, decl |-> S, eff |-> Snapshot(Define(sup, S))]
-               ELSE /\ sup' = sup
+                    /\ wcover' = (wrow # "none")
+               ELSE /\ sup' = sup /\ wcover' = wcover
                     /\ obj' = [kind |-> kind, decl |-> NoSet, eff |-> NoSet]
             /\ gen' = gen + 1 /\ pupd' = TRUE
-    /\ UNCHANGED <<cons, primalGen, sol, m2, poisoned>>
+    /\ UNCHANGED <<cons, primalGen, sol, m2, poisoned, wrow>>
 
 \* what formulation needs: an objective, and a set (own or default) for every robust row in the model
 SetOf(k) == IF cons[k].eff # NoSet THEN cons[k].eff ELSE obj.eff
@@ -105,7 +110,8 @@ DeclOf(k) == IF cons[k].decl # NoSet THEN cons[k].decl ELSE obj.decl
 Formulable == obj.kind # "none" /\ \A k \in CIds : cons[k].st => SetOf(k) # NoSet
 
 \* the declaration as the user sees it: for every constraint in the model the set attached to it
-DeclSnapshot == [k \in CIds |-> IF cons[k].st THEN SetSeq(DeclOf(k)) ELSE <<"absent">>]
+DeclSnapshot == [decls |-> [k \in CIds |-> IF cons[k].st THEN SetSeq(DeclOf(k)) ELSE <<"absent">>],
+                 wrow |-> wrow = "st"]
 
 \* ro.Model.do_math(primal=True): cache hit | re-expansion
 Compile ==
@@ -118,7 +124,7 @@ DoMath(primal) ==
     /\ More /\ Compile
     /\ out' = IF Formulable THEN "ok" ELSE "err"
     /\ Log(IF primal THEN "do_math" ELSE "do_math_dual", <<>>, IF Formulable THEN "ok" ELSE "err")
-    /\ UNCHANGED <<sup, cons, obj, gen, sol, m2, poisoned>>
+    /\ UNCHANGED <<sup, cons, obj, gen, sol, m2, poisoned, wrow, wcover>>
 
 SolveCore(via) == \* via: "solve" (exact cone solver) | "soc_solve" (SOC approximation of exponential cones)
     /\ Compile
@@ -126,20 +132,32 @@ SolveCore(via) == \* via: "solve" (exact cone solver) | "soc_solve" (SOC approxi
        THEN /\ out' = "err" /\ Log(via, DeclSnapshot, "err") /\ UNCHANGED <<sol>>
        ELSE /\ out' = "ok" /\ Log(via, DeclSnapshot, "ok")
             /\ sol' = [kind |-> "ok", gen |-> IF primalGen >= 0 /\ ~pupd THEN primalGen ELSE gen]
-    /\ UNCHANGED <<sup, cons, obj, gen, m2, poisoned>>
+    /\ UNCHANGED <<sup, cons, obj, gen, m2, poisoned, wrow, wcover>>
 
 SetObj(kind, S) == More /\ SetObjCore(kind, S)
+
+\* w = m.rvar() declared late (after some set may already have been captured), then m.st(s*w <= 1), protected by the
+\* DEFAULT set.  Ideal: w is a component no set constrains, so the row forces s = 0 whatever the order of declarations.
+\* Code: le_to_rc clips the row to the width of the captured support (lp.py:3379 num_rand = min(...)): when the default
+\* set was captured before w existed the term s*w is silently dropped (wcover = FALSE).
+LateRvar == /\ More /\ wrow = "none"
+            /\ wrow' = "declared" /\ out' = "ok" /\ Log("late_rvar", <<>>, "ok")
+            /\ UNCHANGED <<sup, cons, obj, gen, pupd, primalGen, sol, m2, poisoned, wcover>>
+LateRow == /\ More /\ wrow = "declared" /\ obj.kind = "minmax"
+           /\ wrow' = "st" /\ gen' = gen + 1 /\ pupd' = TRUE
+           /\ out' = "ok" /\ Log("late_row", <<>>, "ok")
+           /\ UNCHANGED <<sup, cons, obj, primalGen, sol, m2, poisoned, wcover>>
 Solve(via) == More /\ SolveCore(via)
 
 \* ------------------------------------------------------------------ second model and misuse (C17)
 M2St   == /\ More /\ WithModel2 /\ m2.st < 2
           /\ m2' = [m2 EXCEPT !.st = @ + 1, !.solved = FALSE]
           /\ out' = "ok" /\ Log("m2_st", <<>>, "ok")
-          /\ UNCHANGED <<sup, cons, obj, gen, pupd, primalGen, sol, poisoned>>
+          /\ UNCHANGED <<sup, cons, obj, gen, pupd, primalGen, sol, poisoned, wrow, wcover>>
 M2Solve == /\ More /\ WithModel2 /\ ~m2.solved
            /\ m2' = [m2 EXCEPT !.solved = TRUE]
            /\ out' = "ok" /\ Log("m2_solve", <<>>, "ok")
-           /\ UNCHANGED <<sup, cons, obj, gen, pupd, primalGen, sol, poisoned>>
+           /\ UNCHANGED <<sup, cons, obj, gen, pupd, primalGen, sol, poisoned, wrow, wcover>>
 \* each of these must raise and leave BOTH models as they were
 Misuses == {"st_foreign_constr", "forall_foreign_set", "add_foreign_var", "minmax_foreign_set",
             "get_unsolved", "obj_nonscalar", "st_foreign_robust"}
@@ -149,7 +167,7 @@ Misuse(w) ==
     /\ (w = "forall_foreign_set" => \E k \in CIds : cons[k].made /\ ~cons[k].st)
     /\ (w \in {"minmax_foreign_set", "obj_nonscalar"} => obj.kind = "none")
     /\ out' = "err" /\ Log("misuse", <<w>>, "err")
-    /\ UNCHANGED <<sup, cons, obj, gen, pupd, primalGen, sol, m2, poisoned>>
+    /\ UNCHANGED <<sup, cons, obj, gen, pupd, primalGen, sol, m2, poisoned, wrow, wcover>>
 
 DoSt == \E k \in CIds : St(k)
 DoForAll == \E k \in CIds, S \in SetChoices : ForAll(k, S)
@@ -157,7 +175,7 @@ DoSetObj == SetObj("min", {}) \/ \E S \in SetChoices : SetObj("minmax", S)
 DoDoMath == DoMath(TRUE) \/ DoMath(FALSE)
 DoSolve == Solve("solve") \/ Solve("soc_solve")
 DoMisuse == \E w \in Misuses : Misuse(w)
-Body == DoSt \/ DoForAll \/ DoSetObj \/ DoDoMath \/ DoSolve \/ M2St \/ M2Solve \/ DoMisuse
+Body == DoSt \/ DoForAll \/ DoSetObj \/ DoDoMath \/ DoSolve \/ M2St \/ M2Solve \/ DoMisuse \/ (WithLate /\ (LateRvar \/ LateRow))
 
 CloseObj == /\ Closing /\ Len(hist) = MaxSteps - 2 /\ obj.kind = "none"
             /\ (SetObjCore("min", {}) \/ \E S \in SetChoices : SetObjCore("minmax", S))
@@ -174,6 +192,9 @@ Spec == Init /\ [][Next]_vars
 \* C09: the set applied to a constraint is exactly the one attached to it
 NoSetLeak == /\ \A k \in CIds : cons[k].eff # NoSet => cons[k].eff = cons[k].decl
              /\ obj.eff # NoSet => obj.eff = obj.decl
+
+\* C09: every random component a row mentions is covered by the set that protects the row (known finding: violated)
+LateComponentCovered == wrow = "st" => wcover
 
 \* C09/C19: a solution always belongs to the declaration as it was when solve was called
 SolutionCurrent == sol.kind = "ok" => sol.gen <= gen
@@ -194,5 +215,5 @@ StateRec ==
      cons |-> [k \in CIds |-> [st |-> cons[k].st, decl |-> SetSeq(DeclOf(k)), eff |-> SetSeq(SetOf(k))]],
      obj |-> obj.kind, formulable |-> Formulable, solved |-> sol.kind = "ok" /\ sol.gen = gen]
 ExportEnd == (Len(hist) = MaxSteps) => PrintT(ToJson(StateRec))
-View == <<sup, cons, obj, gen, pupd, primalGen, sol, m2, poisoned, out>>
+View == <<sup, cons, obj, gen, pupd, primalGen, sol, m2, poisoned, wrow, wcover, out>>
 =============================================================================
